@@ -291,15 +291,29 @@ class Stack:
         self.ncp = SimNcp(ncp_version, up=ncp_up)
         self.line = Line(self.loop, self.ncp)
         self.serial = FakeSerial(self.loop, self.line)
-        self.ez = bellows.ezsp.EZSP({zigpy.config.CONF_DEVICE_PATH: path})
-        self.gw = bellows.uart.Gateway(self.ez)
-        self.ash = bellows.ash.AshProtocol(self.gw)
-        self.serial.protocol = self.ash
-        self.line.proto = self.ash
-        self.ash.connection_made(self.serial)
-        # EZSP.connect() without the serial/threads part
-        self.ez._gw = self.gw
-        self.ez._protocol = bellows.ezsp.v4.EZSPv4(self.ez.handle_callback, self.gw)
+        import zigpy.serial
+        cfg = {zigpy.config.CONF_DEVICE_PATH: path, zigpy.config.CONF_DEVICE_BAUDRATE: 115200,
+               zigpy.config.CONF_DEVICE_FLOW_CONTROL: None}
+        self.ez = bellows.ezsp.EZSP(cfg)
+        made = {}
+
+        async def fake_create_serial_connection(loop, protocol_factory, url=None, **kwargs):
+            proto = protocol_factory()
+            made["ash"] = proto
+            self.serial.protocol = proto
+            self.line.proto = proto
+            proto.connection_made(self.serial)
+            return self.serial, proto
+
+        # the library's own EZSP.connect() (single-threaded), on the fake serial port
+        orig = zigpy.serial.create_serial_connection
+        zigpy.serial.create_serial_connection = fake_create_serial_connection
+        try:
+            self.loop.run_until_complete(self.ez.connect(use_thread=False))
+        finally:
+            zigpy.serial.create_serial_connection = orig
+        self.ash = made["ash"]
+        self.gw = self.ez._gw
         self.reset_requests = []
         self.tasks = []
         self.line.socket_like = path.startswith("socket://")
